@@ -1,7 +1,7 @@
 //! C13 — integer arithmetic exact or error; mixed numeric comparisons exact. Families:
 //!   arith : `{{ (a OP b) | probe }}` for OP in + - * / // % **   vs  Model.Number.vm_binop
 //!           (one case = one operand pair with the results of every operation the model covers;
-//!           powf / float rem_euclid / float div_euclid go to the no-panic oracle only)
+//!           f64::powf goes to the no-panic oracle only)
 //!   neg   : `{{ (-a) | probe }}`                                   vs  Model.Number.vm_negative
 //!   cmp   : `{{ [a == b, a != b, a < b, a <= b, a > b, a >= b] | probe }}` vs Model.Number.vm_cmp
 //!   prim  : Rust's own `as f64`, `floor`, `as i128`, `as u128` vs the model's f64 primitives
@@ -58,7 +58,6 @@ fn modelled(sym: &str, a: &Value, b: &Value) -> bool {
     }
     let any_float = is_float(a) || is_float(b);
     match sym {
-        "//" | "%" => is_zero_number(b) || !any_float,
         "**" => {
             let neg_exp = matches!(b.as_number(), Some(Number::Integer(i)) if i < 0);
             !(any_float || neg_exp)
@@ -178,7 +177,7 @@ fn push_cmp(sink: &mut Sink, meta: &mut Meta, tera: &Tera, a: &Value, b: &Value)
 
 fn push_prim_conv(sink: &mut Sink, meta: &mut Meta, z_gal: String, z_json: String, f: f64) {
     meta.oracle_checks += 1;
-    let g = format!("{{| p_kind := 0%N; p_z := {z_gal}; p_x := S754_nan; p_f := {}; p_i := 0 |}}", gal_f64(f));
+    let g = format!("{{| p_kind := 0%N; p_z := {z_gal}; p_x := S754_nan; p_y := S754_nan; p_f := {}; p_i := 0 |}}", gal_f64(f));
     sink.push(g, json!({"family": "prim", "op": "as f64", "z": z_json, "impl_bits": format!("{:#018x}", f.to_bits())}), true, None, &["as-f64"]);
 }
 
@@ -186,14 +185,28 @@ fn push_prim_float(sink: &mut Sink, meta: &mut Meta, x: f64) {
     meta.oracle_checks += 3;
     let xs = format!("{:#018x}", x.to_bits());
     let fl = x.floor();
-    let g = format!("{{| p_kind := 1%N; p_z := 0; p_x := {}; p_f := {}; p_i := 0 |}}", gal_f64(x), gal_f64(fl));
+    let g = format!("{{| p_kind := 1%N; p_z := 0; p_x := {}; p_y := S754_nan; p_f := {}; p_i := 0 |}}", gal_f64(x), gal_f64(fl));
     sink.push(g, json!({"family": "prim", "op": "floor", "x": xs, "impl_bits": format!("{:#018x}", fl.to_bits())}), x.fract() != 0.0, None, &["floor"]);
     let i = x as i128;
-    let g = format!("{{| p_kind := 2%N; p_z := 0; p_x := {}; p_f := S754_nan; p_i := {} |}}", gal_f64(x), gal_z(i));
+    let g = format!("{{| p_kind := 2%N; p_z := 0; p_x := {}; p_y := S754_nan; p_f := S754_nan; p_i := {} |}}", gal_f64(x), gal_z(i));
     sink.push(g, json!({"family": "prim", "op": "as i128", "x": xs, "impl": i.to_string()}), x.is_finite(), None, &["as-i128"]);
+    let tr = x.trunc();
+    meta.oracle_checks += 1;
+    let g = format!("{{| p_kind := 5%N; p_z := 0; p_x := {}; p_y := S754_nan; p_f := {}; p_i := 0 |}}", gal_f64(x), gal_f64(tr));
+    sink.push(g, json!({"family": "prim", "op": "trunc", "x": xs, "impl_bits": format!("{:#018x}", tr.to_bits())}), x.fract() != 0.0, None, &["trunc"]);
     let u = x as u128;
-    let g = format!("{{| p_kind := 3%N; p_z := 0; p_x := {}; p_f := S754_nan; p_i := {} |}}", gal_f64(x), gal_zu(u));
+    let g = format!("{{| p_kind := 3%N; p_z := 0; p_x := {}; p_y := S754_nan; p_f := S754_nan; p_i := {} |}}", gal_f64(x), gal_zu(u));
     sink.push(g, json!({"family": "prim", "op": "as u128", "x": xs, "impl": u.to_string()}), x.is_finite(), None, &["as-u128"]);
+}
+
+fn push_prim_float2(sink: &mut Sink, meta: &mut Meta, x: f64, y: f64) {
+    let xs = format!("{:#018x}", x.to_bits());
+    let ys = format!("{:#018x}", y.to_bits());
+    for (kind, name, r) in [(4, "%", x % y), (6, "rem_euclid", x.rem_euclid(y)), (7, "div_euclid", x.div_euclid(y))] {
+        meta.oracle_checks += 1;
+        let g = format!("{{| p_kind := {kind}%N; p_z := 0; p_x := {}; p_y := {}; p_f := {}; p_i := 0 |}}", gal_f64(x), gal_f64(y), gal_f64(r));
+        sink.push(g, json!({"family": "prim", "op": name, "x": xs, "y": ys, "impl_bits": format!("{:#018x}", r.to_bits())}), x.is_finite() && y.is_finite() && y != 0.0, None, &[name]);
+    }
 }
 
 /// random integer with a random bit length (so that every magnitude is exercised)
@@ -359,7 +372,7 @@ fn main() {
         }
         exhaustive_arith = true;
     }
-    let n_arith_rand = if thorough { 20_000 } else { 2_200 };
+    let n_arith_rand = if thorough { 10_000 } else { 2_000 };
     for k in 0..n_arith_rand {
         let pick = |rng: &mut Rng| -> Value {
             match rng.below(16) {
@@ -471,7 +484,21 @@ fn main() {
     for x in pools::float_pool() {
         push_prim_float(&mut prim, &mut meta, x);
     }
-    for _ in 0..(if thorough { 6000 } else { 250 }) {
+    {
+        let fp = pools::float_pool();
+        for x in &fp {
+            for y in &fp {
+                if thorough || rng.chance(1, 12) {
+                    push_prim_float2(&mut prim, &mut meta, *x, *y);
+                }
+            }
+        }
+    }
+    for _ in 0..(if thorough { 3000 } else { 200 }) {
+        if rng.chance(1, 3) {
+            let (x, y) = (rand_f64(&mut rng), rand_f64(&mut rng));
+            push_prim_float2(&mut prim, &mut meta, x, y);
+        }
         let z = rand_i128(&mut rng);
         push_prim_conv(&mut prim, &mut meta, gal_z(z), z.to_string(), z as f64);
         let u = ((rng.next() as u128) << 64) | rng.next() as u128;
@@ -483,7 +510,7 @@ fn main() {
 
     meta.extra.insert("oracle_only_evaluations".into(), json!(st.oracle_only));
     meta.extra.insert("oracle_only_nontrivial".into(), json!(st.oracle_only_nontrivial));
-    meta.extra.insert("oracle_only_note".into(), json!("float `//`, float `%` and `**` with a float operand or a negative integer exponent (f64::div_euclid, f64::rem_euclid, f64::powf) are run for the no-panic oracle only; the model does not compute them"));
+    meta.extra.insert("oracle_only_note".into(), json!("`**` with a float operand or a negative integer exponent (f64::powf) is run for the no-panic oracle only; the model does not compute it"));
     meta.extra.insert("pow_exponent_above_u32_hits".into(), json!(st.pow_kf_hits));
     meta.extra.insert("exhaustive_arith_pairs_of_boundary_values".into(), json!(exhaustive_arith));
     meta.extra.insert("exhaustive_cmp_pairs_of_pool_numbers_all_reps".into(), json!(exhaustive_cmp));
